@@ -16,6 +16,10 @@ UNITS = [
     Unit(name="TypeIndex", file=B, kind="type", anchor="pub(crate) struct TypeIndex {"),
     Unit(name="Index", file=B, kind="const", anchor="pub struct Index(BlobTypeMap<TypeIndex>);"),
 
+    Unit(name="indexpack_blob_type", file="crates/core/src/repofile/indexfile.rs", anchor="pub fn blob_type(&self) -> BlobType", ret_name="r",
+         wrap_open="impl IndexPack {", wrap_close="}",
+         functions=["repofile::indexfile::IndexPack::blob_type"],
+         contract="\n    ensures /*@pack_type_is_first_blob_or_data*/ r == pack_type_spec(*self),\n"),
     Unit(name="extend", file=B, anchor="fn extend<T>(&mut self, iter: T)", within="impl Extend<IndexPack> for IndexCollector {",
          wrap_open="impl IndexCollector {", wrap_close="}",
          functions=["<index::binarysorted::IndexCollector as Extend<IndexPack>>::extend"],
